@@ -40,7 +40,7 @@ CLAIMED.update({
                       "LEX.tie-quantifier and LEX.tie-constraints (two abstract witnesses per side, Rec uninterpreted), LEX.start, SHORTCUT.*, "
                       "DISPATCH, PART.*, CNF.*, MCS.*, Z3MCS.*. Assumes: as C03",
             "abstract interpretation + two-witness instantiation of the tie loops + decision-table comparison"),
-    "C15": ("§4 C15", "decides: CNF.roles, CNF.literals, CNF.constants (incl. handling, on witness goals), CNF.pool (helper constructors evaluated on a state with and without the slots), MCS.violated, MCS.block, "
+    "C15": ("§4 C15", "decides: CNF.roles, CNF.literals, CNF.constants (incl. handling, on witness goals), CNF.pool (helper constructors evaluated on a state with and without the slots), MCS.violated (evaluated on 72 concrete clause tables / models / ignore lists, second call on one object), MCS.block, "
                       "MCS.minimal (three abstract sets, ⊆ uninterpreted), MCS.loop, CACHE.readonly for clauses. Assumes: z3's tseitin-cnf tactic "
                       "preserves satisfiability per assignment of the original atoms; RC2 returns optimal models",
             "abstract interpretation of the encoder and of the enumeration loop + witness instantiation"),
@@ -103,7 +103,8 @@ CLAIMED.update({
                       "from the .g4 files), GRAMMAR.generated (generated parsers agree with the grammar on rules and token vocabulary), "
                       "LEX.skip (incl. non-greedy delimited tokens), LEX.generated (serialized ATN of the generated lexer decoded and compared with "
                       "the grammar: literals, characters, wildcards, greediness, skip actions), VISIT.meaning, VISIT.order (list rules keep "
-                      "file order, lose nothing), VISIT.keys, REJECT.listeners, REJECT.eof (lookahead 1), REJECT.signature. Not decided: ANTLR runtime",
+                      "file order, lose nothing: the visitors evaluated on concrete parse trees of one to four atoms / one to three conditionals), "
+                      "VISIT.keys, REJECT.listeners, REJECT.eof (lookahead 1), REJECT.signature (evaluated on 14 atom lists). Not decided: ANTLR runtime",
             "grammar reader + abstract interpretation of the visitors + who-may-call / typestate of the parse entry points"),
 })
 
